@@ -100,28 +100,30 @@ theorem allSub_of_step (P : Val → Prop)
 
 /-! ### the model's bindings against the oracle's -/
 
-/-- the model's `dict({'ROOT': d, 'CURRENT': d}, **user_vars)` and the oracle's list of bindings
-    describe the same variables; in D every bound value is present -/
+/-- the model's `dict({'ROOT': d, 'CURRENT': d}, **user_vars)` (with the names bound to a missing
+    value kept apart in `miss`) and the oracle's list of bindings describe the same variables -/
 structure EnvRel (c : Ctx) (root : Val) (env : Env) : Prop where
   hign : c.ign = true
   hroot : c.root = root
-  hget : ∀ name, dget name c.env =
+  hvar : ∀ name,
     (match env.lookup name with
-     | some (some v) => some v
-     | some none => none
-     | none => if name = "ROOT" ∨ name = "CURRENT" then some root else none)
-  hsome : ∀ name, env.lookup name ≠ some none
+     | some (some v) => c.miss.contains name = false ∧ dget name c.env = some v
+     | some none => c.miss.contains name = true
+     | none => c.miss.contains name = false ∧
+         dget name c.env = if name = "ROOT" ∨ name = "CURRENT" then some root else none)
 
 theorem EnvRel.init (d : Val) : EnvRel (Ctx.init true d) d [] := by
-  refine ⟨rfl, rfl, ?_, by intro name; simp [List.lookup]⟩
+  refine ⟨rfl, rfl, ?_⟩
   intro name
+  simp only [List.lookup]
+  refine ⟨by simp [Ctx.init], ?_⟩
   by_cases h1 : name = "ROOT"
-  · subst h1; simp [Ctx.init, dget, List.lookup]
+  · subst h1; simp [Ctx.init, dget]
   · by_cases h2 : name = "CURRENT"
-    · subst h2; simp [Ctx.init, dget, List.lookup]
+    · subst h2; simp [Ctx.init, dget]
     · have h1' : ¬ ("ROOT" = name) := fun e => h1 e.symm
       have h2' : ¬ ("CURRENT" = name) := fun e => h2 e.symm
-      simp [Ctx.init, dget, List.lookup, h1, h2, h1', h2']
+      simp [Ctx.init, dget, h1, h2, h1', h2']
 
 theorem dget_dset (k k' : String) (v : Val) (fs : Fields) :
     dget k' (dset k v fs) = if k' = k then some v else dget k' fs := by
@@ -144,22 +146,52 @@ theorem dget_dset (k k' : String) (v : Val) (fs : Fields) :
         simp [dset, ha, dget, ih]
       · simp only [dset, ha, if_false, dget, ih, h]
 
+theorem contains_filter_ne (ms : List String) (name n : String) :
+    (ms.filter (fun x => x != name)).contains n = (ms.contains n && n != name) := by
+  induction ms with
+  | nil => simp
+  | cons m r ih =>
+    by_cases hm : m = name
+    · subst hm
+      by_cases hn : n = m
+      · subst hn; simp [List.filter, ih]
+      · have : (n == m) = false := by simpa using hn
+        simp [List.filter, ih, List.contains_cons, this, hn]
+    · have h1 : (m != name) = true := by simpa using hm
+      simp only [List.filter, h1, List.contains_cons, ih]
+      by_cases hn : n = m
+      · subst hn
+        have : (n != name) = true := by simpa using hm
+        simp [this]
+      · have : (n == m) = false := by simpa using hn
+        simp [this]
+
 /-- binding one more variable on both sides keeps the relation -/
 theorem EnvRel.bind {c : Ctx} {root : Val} {env : Env} (h : EnvRel c root env) (name : String)
     (v : Val) : EnvRel (c.bind name v) root ((name, some v) :: env) := by
-  refine ⟨h.hign, h.hroot, ?_, ?_⟩
-  · intro n
-    simp only [Ctx.bind, dget_dset, List.lookup]
+  refine ⟨h.hign, h.hroot, ?_⟩
+  intro n
+  simp only [Ctx.bind, dget_dset, List.lookup, contains_filter_ne]
+  by_cases hn : n = name
+  · subst hn; simp
+  · have h1 : (n == name) = false := by simpa using hn
+    have h2 : (n != name) = true := by simpa using hn
+    simp only [h1, h2, Bool.and_true, hn, if_false]
+    exact h.hvar n
+
+/-- the same for a `$let` variable whose value may be missing -/
+theorem EnvRel.bindOpt {c : Ctx} {root : Val} {env : Env} (h : EnvRel c root env) (name : String)
+    (o : Option Val) : EnvRel (c.bindOpt name o) root ((name, o) :: env) := by
+  cases o with
+  | some v => exact h.bind name v
+  | none =>
+    refine ⟨h.hign, h.hroot, ?_⟩
+    intro n
+    simp only [Ctx.bindOpt, List.lookup, List.contains_cons]
     by_cases hn : n = name
     · subst hn; simp
-    · have : (n == name) = false := by simpa using hn
-      simp [hn, this, h.hget n]
-  · intro n
-    simp only [List.lookup]
-    by_cases hn : n = name
-    · subst hn; simp
-    · have : (n == name) = false := by simpa using hn
-      simp only [this]
-      exact h.hsome n
+    · have h1 : (n == name) = false := by simpa using hn
+      simp only [h1, Bool.false_or]
+      exact h.hvar n
 
 end MongoModel.Proofs.C04
